@@ -672,3 +672,104 @@ func (p *Prog) AliasingAppends() []AliasAppend {
 	}
 	return out
 }
+
+// EffectPred builds a node predicate for "this CFG node performs the effect": the node contains a call
+// for which direct holds, or a call to a private module function every path of which performs the effect
+// (summarised recursively, depth <= 3). Rules stated with it do not care whether an effect sits in the
+// function itself or in a thin helper (sendPrune present or inlined into Leave).
+func (p *Prog) EffectPred(f *Func, direct func(fn *Func, cs CallSite) bool) func(ast.Node) bool {
+	memo := map[*Func]int{} // 0 unknown, 1 in progress, 2 yes, 3 no
+	var always func(h *Func, depth int) bool
+	var pred func(fn *Func, depth int) func(ast.Node) bool
+	pred = func(fn *Func, depth int) func(ast.Node) bool {
+		return func(n ast.Node) bool {
+			if _, isDefer := n.(*ast.DeferStmt); isDefer {
+				return false
+			}
+			if _, isGo := n.(*ast.GoStmt); isGo {
+				return false
+			}
+			for _, cs := range p.CallsIn(fn, n, false) {
+				if direct(fn, cs) {
+					return true
+				}
+				if depth > 0 {
+					if h := p.Funcs[cs.Name]; h != nil && h.Decl != nil && h != fn && always(h, depth-1) {
+						return true
+					}
+				}
+			}
+			return false
+		}
+	}
+	always = func(h *Func, depth int) bool {
+		switch memo[h] {
+		case 1:
+			return false
+		case 2:
+			return true
+		case 3:
+			return false
+		}
+		memo[h] = 1
+		g := p.Graph(h)
+		ok, _ := g.MustPass(g.Entry(), PassOpts{}, pred(h, depth))
+		if ok {
+			memo[h] = 2
+		} else {
+			memo[h] = 3
+		}
+		return ok
+	}
+	return pred(f, 3)
+}
+
+// LoopsOver returns the loops of f that visit every element of a collection whose canonical value satisfies
+// pred: `for … := range X` and the classic index loop `for i := 0; i < len(X); i++` alike.
+func (p *Prog) LoopsOver(f *Func, pred VPred) []ast.Stmt {
+	var out []ast.Stmt
+	res := p.R(f)
+	inspectNoLit(f.Body, func(n ast.Node) bool {
+		switch l := n.(type) {
+		case *ast.RangeStmt:
+			if pred(res.Val(l.X)) {
+				out = append(out, l)
+			}
+		case *ast.ForStmt:
+			be, ok := l.Cond.(*ast.BinaryExpr)
+			if !ok || l.Init == nil || l.Post == nil {
+				return true
+			}
+			inc, ok := l.Post.(*ast.IncDecStmt)
+			if !ok || inc.Tok != token.INC {
+				return true
+			}
+			init, ok := l.Init.(*ast.AssignStmt)
+			if !ok || len(init.Lhs) != 1 || len(init.Rhs) != 1 || !res.Val(init.Rhs[0]).IsConst("0") {
+				return true
+			}
+			iv, _ := unparen(init.Lhs[0]).(*ast.Ident)
+			cv, _ := unparen(inc.X).(*ast.Ident)
+			if iv == nil || cv == nil || f.Info().ObjectOf(iv) != f.Info().ObjectOf(cv) {
+				return true
+			}
+			var idx, bound ast.Expr
+			switch be.Op {
+			case token.LSS:
+				idx, bound = be.X, be.Y
+			case token.GTR:
+				idx, bound = be.Y, be.X
+			default:
+				return true
+			}
+			if id, ok := unparen(idx).(*ast.Ident); !ok || f.Info().ObjectOf(id) != f.Info().ObjectOf(iv) {
+				return true
+			}
+			if call, ok := unparen(bound).(*ast.CallExpr); ok && p.CalleeName(f.Info(), call) == "builtin.len" && len(call.Args) == 1 && pred(res.Val(call.Args[0])) {
+				out = append(out, l)
+			}
+		}
+		return true
+	})
+	return out
+}
